@@ -165,6 +165,13 @@ def run(ctx):
             for m in ms:
                 k2.pop(m, None)
             cases.append((name, "reqmutex_none", ",".join(g), args, k2, "err"))
+            # ... nor does an empty text count as a member given: the converters turn "" into None, so accepting it
+            # leaves an instance holding none of the group (keyword route only: a tree never carries an empty text)
+            for m in ms:
+                if attrs[m]["k"] in ("string", "nagstring", "oneof", "integer", "decimal", "bool", "datetime", "time"):
+                    k4 = dict(k2); k4[m] = ""
+                    cases.append((name, "reqmutex_empty_string", m, args, k4, "err"))
+                    break
             if len(ms) >= 2:
                 k3 = dict(kwargs)
                 for m in ms[:2]:
@@ -222,7 +229,8 @@ def run(ctx):
         meta.append(("kw", name, kind, what, expect, r, None))
         lines.append(kw_line(idx, args, kwargs))
         # tree route (not for kinds that only exist on the keyword route)
-        if kind in ("unknown_kwarg", "list_as_kwarg", "list_wrong_member", "int_over_as_decimal", "int_over_as_float"):
+        if kind in ("unknown_kwarg", "list_as_kwarg", "list_wrong_member", "int_over_as_decimal", "int_over_as_float",
+                    "reqmutex_empty_string"):
             continue
         try:
             tree = tree_from(gen, name, args, kwargs)
